@@ -45,6 +45,29 @@ theorem domains_correct (inp : Inputs) (ts : List Dep) (a : List (Tok × Bool)) 
   have := inProd_domain inp (variables inp ts) a ((mem_product _ a).mp hp) (v, b) hv
   exact domainOf_cases inp v b this
 
+/-- **Forced flags outside IUSE do not count**: a flag the profile forces on or off but the package does not have in IUSE
+is simply off, so the answer is the one for the forced sets cut down to IUSE — whatever rules mention the flag, also
+rules all of whose flags are pinned. -/
+theorem forced_outside_iuse_ignored (inp : Inputs) (ts : List Dep) :
+    solve inp ts = solve (restrictForced inp) ts := by
+  have h : ∀ v, domainOf inp v = domainOf (restrictForced inp) v := by
+    intro v
+    unfold domainOf restrictForced
+    by_cases hv : v ∈ inp.iuse
+    · simp [hv, List.mem_filter]
+    · simp [hv]
+  unfold solve
+  have hvars : variables (restrictForced inp) ts = variables inp ts := rfl
+  rw [hvars]
+  congr 2
+  exact List.map_congr_left fun v _ => by rw [h v]
+
+/-- `x? ( a )`, IUSE a b, the profile forces `x` on (not in IUSE, hence off) and `a` off: the rule is met, `b` is free -/
+example : (solve ⟨[['a'], ['b']], [['x']], [['a']], []⟩ [.cond false ['x'] [.leaf ['a'] none]]).map onOf
+    = [[], [['b']]] := by decide
+/-- `a` with `a` forced on but outside IUSE: no solution -/
+example : solve ⟨[['z']], [['a'], ['z']], [], []⟩ [.leaf ['a'] none] = [] := by decide
+
 /-- **Sound**: every produced assignment satisfies the compiled constraints, hence (guard) the REQUIRED_USE. -/
 theorem solutions_sound (inp : Inputs) (ts : List Dep) (a : List (Tok × Bool)) (ha : a ∈ solve inp ts) :
     (compiled ts).all (·.eval (onOf a)) = true ∧
